@@ -131,9 +131,44 @@ func genC14Reregister(t *rapid.T) *Bundle {
 	return &Bundle{Prop: "C14", Kind: "reregister", Case: c, Expect: mustJSON(c14Expect{Place: "reregister", Error: true, Rows: []any{}}), Tags: []string{"place:reregister"}}
 }
 
+// genC14Barrier: every ASYNC/SPINASYNC call of a query is in flight at the same time, so user code that waits
+// for its sibling invocations (a batching function) completes, however many rows there are.
+func genC14Barrier(t *rapid.T) *Bundle {
+	n := rapid.SampledFrom([]int{2, 5, 17, 66, 70, 130}).Draw(t, "bar_rows")
+	qual := rapid.SampledFrom([]string{"ASYNC", "SPINASYNC"}).Draw(t, "bar_qual")
+	rows := []any{}
+	want := []any{}
+	var args []string
+	for i := 0; i < n; i++ {
+		a := float64(i % 7 * 10)
+		rows = append(rows, map[string]any{"id": float64(i + 1), "a": a, "n": []any{}})
+		out := map[string]any{"id": float64(i + 1)}
+		if qual == "ASYNC" {
+			out["y"] = a + 1000
+		}
+		want = append(want, out)
+		args = append(args, argText(a))
+	}
+	sort.Strings(args)
+	alias := ""
+	if qual == "ASYNC" {
+		alias = " AS y"
+	}
+	q := fmt.Sprintf("SELECT id, %s.bar(1, %d, a)%s FROM t", qual, n, alias)
+	kind := map[string]string{"ASYNC": "async", "SPINASYNC": "spinasync"}[qual]
+	exp := c14Expect{Place: "barrier", Rows: want, Sites: []c14Site{{ID: 1, Kind: kind, Args: args}}}
+	sim := drawSim(t, "")
+	c := oneClientCase("C14", sim, map[string]any{"t": rows}, casefmt.Op{Doc: 0, Vars: -1, Query: q})
+	c.Sim.StepBudget = 3000000
+	return &Bundle{Prop: "C14", Kind: "barrier", Case: c, Expect: mustJSON(exp), Tags: []string{"place:barrier"}}
+}
+
 func genC14(t *rapid.T) *Bundle {
-	if rapid.IntRange(0, 19).Draw(t, "reregister") == 0 {
+	switch rapid.IntRange(0, 39).Draw(t, "special") {
+	case 0, 1:
 		return genC14Reregister(t)
+	case 2:
+		return genC14Barrier(t)
 	}
 	nrows := rapid.IntRange(0, 6).Draw(t, "nrows")
 	place := rapid.SampledFrom([]string{"top", "derived_star", "cte", "subquery", "derived_cols", "subquery_in_derived", "subquery_in_cte", "union_branch", "exists", "cte_chain"}).Draw(t, "place")
